@@ -185,30 +185,30 @@ pub fn p163() {
     let _ = a.to_rgb();
 }
 
-pub fn p172() {
+pub fn p173() {
     let a: re::math::color::Color3f<re::math::color::LinRgb> = mk();
     let b: re::math::color::Color3f<re::math::color::LinRgb> = mk();
     let _ = re::math::space::Affine::add(&a, &b);
 }
 
-pub fn p173() {
+pub fn p174() {
     let a: re::math::color::Color3f<re::math::color::LinRgb> = mk();
     let b: re::math::color::Color3f<re::math::color::LinRgb> = mk();
     let _ = re::math::space::Affine::sub(&a, &b);
 }
 
-pub fn p174() {
+pub fn p175() {
     let a: re::math::color::Color3f<re::math::color::LinRgb> = mk();
     let b: re::math::color::Color3f<re::math::color::LinRgb> = mk();
     let _ = re::math::Lerp::lerp(&a, &b, 0.5);
 }
 
-pub fn p178() {
+pub fn p179() {
     let a: re::math::color::Color3f<re::math::color::LinRgb> = mk();
     let _ = a.to_srgb();
 }
 
-pub fn p195() {
+pub fn p197() {
     let a: re::math::color::Color3f<re::math::color::Rgb> = mk();
     let b: re::math::color::Color3f<re::math::color::Rgb> = mk();
     let c: re::math::color::Color3f<re::math::color::Rgb> = mk();
@@ -216,45 +216,45 @@ pub fn p195() {
     let _ = re::math::space::Affine::add(&c, &d);
 }
 
-pub fn p198() {
+pub fn p200() {
     let a: re::math::color::Color3f<re::math::color::Rgb> = mk();
     let b: re::math::color::Color3f<re::math::color::Rgb> = mk();
     let _ = re::math::space::Affine::add(&a, &b);
 }
 
-pub fn p199() {
+pub fn p201() {
     let a: re::math::color::Color3f<re::math::color::Rgb> = mk();
     let b: re::math::color::Color3f<re::math::color::Rgb> = mk();
     let _ = re::math::space::Affine::sub(&a, &b);
 }
 
-pub fn p200() {
+pub fn p202() {
     let a: re::math::color::Color3f<re::math::color::Rgb> = mk();
     let b: re::math::color::Color3f<re::math::color::Rgb> = mk();
     let _ = re::math::Lerp::lerp(&a, &b, 0.5);
 }
 
-pub fn p209() {
+pub fn p211() {
     let a: re::math::color::Color3f<re::math::color::Rgb> = mk();
     let _ = a.to_color3();
 }
 
-pub fn p210() {
+pub fn p212() {
     let a: re::math::color::Color3f<re::math::color::Rgb> = mk();
     let _ = a.to_hsl();
 }
 
-pub fn p211() {
+pub fn p213() {
     let a: re::math::color::Color3f<re::math::color::Rgb> = mk();
     let _ = a.to_linear();
 }
 
-pub fn p212() {
+pub fn p214() {
     let a: re::math::color::Color3f<re::math::color::Rgb> = mk();
     let _ = a.to_rgba();
 }
 
-pub fn p225() {
+pub fn p227() {
     let a: re::math::color::Color3<re::math::color::Hsl> = mk();
     let b: re::math::color::Color3<re::math::color::Hsl> = mk();
     let c: re::math::color::Color3<re::math::color::Hsl> = mk();
@@ -262,12 +262,12 @@ pub fn p225() {
     let _ = re::math::space::Affine::add(&c, &d);
 }
 
-pub fn p231() {
+pub fn p233() {
     let a: re::math::color::Color3<re::math::color::Hsl> = mk();
     let _ = a.to_rgb();
 }
 
-pub fn p252() {
+pub fn p255() {
     let a: re::math::color::Color3<re::math::color::Rgb> = mk();
     let b: re::math::color::Color3<re::math::color::Rgb> = mk();
     let c: re::math::color::Color3<re::math::color::Rgb> = mk();
@@ -275,1288 +275,1299 @@ pub fn p252() {
     let _ = re::math::space::Affine::add(&c, &d);
 }
 
-pub fn p253() {
+pub fn p256() {
     let a: re::math::color::Color3<re::math::color::Rgb> = mk();
     let _ = a.to_hsl();
 }
 
-pub fn p254() {
+pub fn p257() {
     let a: re::math::color::Color3<re::math::color::Rgb> = mk();
     let _ = a.to_rgba();
 }
 
-pub fn p262() {
+pub fn p264() {
+    use re::geom::{Tri, Vertex};
+    let vs = |_: Vertex<re::math::point::Point3<re::render::Model>, ()>, _: ()| -> Vertex<re::math::vec::ProjVec4, f32> { mk() };
+    let fs = |_: re::render::raster::Frag<f32>| -> re::math::color::Color<[u8; 4], re::math::color::Rgba> { mk() };
+    let sh = re::render::shader::Shader::new(vs, fs);
+    let mut target: re::util::buf::Buf2<u32> = mk();
+    let tris: Vec<Tri<usize>> = mk();
+    let verts: Vec<Vertex<re::math::point::Point3<re::render::Model>, ()>> = mk();
+    re::render::render(&tris, &verts, &sh, (), mk(), &mut target, &mk::<re::render::Context>());
+}
+
+pub fn p268() {
     let a: f32 = mk();
     let b: f32 = mk();
     let _ = a + b;
 }
 
-pub fn p263() {
+pub fn p269() {
     let a: f32 = mk();
     let b: f32 = mk();
     let _ = a % b;
 }
 
-pub fn p264() {
+pub fn p270() {
     let a: f32 = mk();
     let b: f32 = mk();
     let _ = a - b;
 }
 
-pub fn p268() {
+pub fn p274() {
     let a: re::math::mat::Mat3x3<re::math::mat::RealToReal<2, re::render::Model, re::render::Model>> = mk();
     let b: re::math::point::Point2<re::render::Model> = mk();
     let _r: re::math::point::Point2<re::render::Model> = a.apply_pt(&b);
 }
 
-pub fn p272() {
+pub fn p278() {
     let a: re::math::mat::Mat3x3<re::math::mat::RealToReal<2, re::render::Model, re::render::Model>> = mk();
     let b: re::math::vec::Vec2<re::render::Model> = mk();
     let _r: re::math::vec::Vec2<re::render::Model> = a.apply(&b);
 }
 
-pub fn p274() {
+pub fn p280() {
     let a: re::math::mat::Mat3x3<re::math::mat::RealToReal<2, re::render::Model, re::render::Model>> = mk();
     let b: re::math::vec::Vec2<re::render::Model> = mk();
     let _ = a.apply(&b);
 }
 
-pub fn p281() {
+pub fn p287() {
     let a: re::math::mat::Mat3x3<re::math::mat::RealToReal<2, re::render::Model, re::render::World>> = mk();
     let b: re::math::point::Point2<re::render::Model> = mk();
     let _r: re::math::point::Point2<re::render::World> = a.apply_pt(&b);
 }
 
-pub fn p285() {
+pub fn p291() {
     let a: re::math::mat::Mat3x3<re::math::mat::RealToReal<2, re::render::Model, re::render::World>> = mk();
     let b: re::math::vec::Vec2<re::render::Model> = mk();
     let _r: re::math::vec::Vec2<re::render::World> = a.apply(&b);
 }
 
-pub fn p286() {
+pub fn p292() {
     let a: re::math::mat::Mat3x3<re::math::mat::RealToReal<2, re::render::Model, re::render::World>> = mk();
     let b: re::math::vec::Vec2<re::render::Model> = mk();
     let _ = a.apply(&b);
 }
 
-pub fn p294() {
+pub fn p300() {
     let a: re::math::mat::Mat3x3<re::math::mat::RealToReal<2, re::render::World, re::render::Model>> = mk();
     let b: re::math::point::Point2<re::render::World> = mk();
     let _r: re::math::point::Point2<re::render::Model> = a.apply_pt(&b);
 }
 
-pub fn p299() {
+pub fn p305() {
     let a: re::math::mat::Mat3x3<re::math::mat::RealToReal<2, re::render::World, re::render::Model>> = mk();
     let b: re::math::vec::Vec2<re::render::World> = mk();
     let _r: re::math::vec::Vec2<re::render::Model> = a.apply(&b);
-}
-
-pub fn p301() {
-    let a: re::math::mat::Mat3x3<re::math::mat::RealToReal<2, re::render::World, re::render::Model>> = mk();
-    let b: re::math::vec::Vec2<re::render::World> = mk();
-    let _ = a.apply(&b);
 }
 
 pub fn p307() {
-    let a: re::math::mat::Mat3x3<re::math::mat::RealToReal<2, re::render::World, re::render::World>> = mk();
-    let b: re::math::point::Point2<re::render::World> = mk();
-    let _r: re::math::point::Point2<re::render::World> = a.apply_pt(&b);
-}
-
-pub fn p312() {
-    let a: re::math::mat::Mat3x3<re::math::mat::RealToReal<2, re::render::World, re::render::World>> = mk();
+    let a: re::math::mat::Mat3x3<re::math::mat::RealToReal<2, re::render::World, re::render::Model>> = mk();
     let b: re::math::vec::Vec2<re::render::World> = mk();
-    let _r: re::math::vec::Vec2<re::render::World> = a.apply(&b);
+    let _ = a.apply(&b);
 }
 
 pub fn p313() {
     let a: re::math::mat::Mat3x3<re::math::mat::RealToReal<2, re::render::World, re::render::World>> = mk();
+    let b: re::math::point::Point2<re::render::World> = mk();
+    let _r: re::math::point::Point2<re::render::World> = a.apply_pt(&b);
+}
+
+pub fn p318() {
+    let a: re::math::mat::Mat3x3<re::math::mat::RealToReal<2, re::render::World, re::render::World>> = mk();
+    let b: re::math::vec::Vec2<re::render::World> = mk();
+    let _r: re::math::vec::Vec2<re::render::World> = a.apply(&b);
+}
+
+pub fn p319() {
+    let a: re::math::mat::Mat3x3<re::math::mat::RealToReal<2, re::render::World, re::render::World>> = mk();
     let b: re::math::vec::Vec2<re::render::World> = mk();
     let _ = a.apply(&b);
 }
 
-pub fn p316() {
+pub fn p322() {
     let a: re::math::mat::Mat4x4<re::math::mat::RealToReal<3, re::render::Model, re::render::Model>> = mk();
     let b: re::math::mat::Mat4x4<re::render::ModelToProj> = mk();
     let _ = a.then(&b);
 }
 
-pub fn p317() {
+pub fn p323() {
     let a: re::math::mat::Mat4x4<re::math::mat::RealToReal<3, re::render::Model, re::render::Model>> = mk();
     let b: re::math::mat::Mat4x4<re::render::ModelToView> = mk();
     let _ = a.then(&b);
 }
 
-pub fn p318() {
+pub fn p324() {
     let a: re::math::mat::Mat4x4<re::math::mat::RealToReal<3, re::render::Model, re::render::Model>> = mk();
     let b: re::math::mat::Mat4x4<re::render::ModelToWorld> = mk();
     let _ = a.then(&b);
 }
 
-pub fn p321() {
+pub fn p327() {
     let a: re::math::mat::Mat4x4<re::math::mat::RealToReal<3, re::render::Model, re::render::Model>> = mk();
     let b: re::math::mat::Mat4x4<re::math::mat::RealToReal<3, re::render::Model, re::render::Model>> = mk();
     let _r: re::math::mat::Mat4x4<re::math::mat::RealToReal<3, re::render::Model, re::render::Model>> = a.compose(&b);
 }
 
-pub fn p325() {
+pub fn p331() {
     let a: re::math::mat::Mat4x4<re::math::mat::RealToReal<3, re::render::Model, re::render::Model>> = mk();
     let b: re::math::mat::Mat4x4<re::math::mat::RealToReal<3, re::render::Model, re::render::Model>> = mk();
     let _ = a.compose(&b);
 }
 
-pub fn p326() {
+pub fn p332() {
     let a: re::math::mat::Mat4x4<re::math::mat::RealToReal<3, re::render::Model, re::render::Model>> = mk();
     let b: re::math::mat::Mat4x4<re::math::mat::RealToReal<3, re::render::Model, re::render::Model>> = mk();
-    let _ = a.then(&b);
-}
-
-pub fn p328() {
-    let a: re::math::mat::Mat4x4<re::math::mat::RealToReal<3, re::render::Model, re::render::Model>> = mk();
-    let b: re::math::mat::Mat4x4<re::math::mat::RealToReal<3, re::render::Model, ()>> = mk();
     let _ = a.then(&b);
 }
 
 pub fn p334() {
     let a: re::math::mat::Mat4x4<re::math::mat::RealToReal<3, re::render::Model, re::render::Model>> = mk();
+    let b: re::math::mat::Mat4x4<re::math::mat::RealToReal<3, re::render::Model, ()>> = mk();
+    let _ = a.then(&b);
+}
+
+pub fn p340() {
+    let a: re::math::mat::Mat4x4<re::math::mat::RealToReal<3, re::render::Model, re::render::Model>> = mk();
     let b: re::math::mat::Mat4x4<re::math::mat::RealToReal<3, re::render::Model, re::render::World>> = mk();
     let _ = a.then(&b);
 }
 
-pub fn p336() {
+pub fn p342() {
     let a: re::math::mat::Mat4x4<re::math::mat::RealToReal<3, re::render::Model, re::render::Model>> = mk();
     let b: re::math::mat::Mat4x4<re::math::mat::RealToReal<3, (), re::render::Model>> = mk();
     let _ = a.compose(&b);
 }
 
-pub fn p343() {
+pub fn p349() {
     let a: re::math::mat::Mat4x4<re::math::mat::RealToReal<3, re::render::Model, re::render::Model>> = mk();
     let b: re::math::mat::Mat4x4<re::math::mat::RealToReal<3, re::render::World, re::render::Model>> = mk();
     let _r: re::math::mat::Mat4x4<re::math::mat::RealToReal<3, re::render::World, re::render::Model>> = a.compose(&b);
 }
 
-pub fn p346() {
+pub fn p352() {
     let a: re::math::mat::Mat4x4<re::math::mat::RealToReal<3, re::render::Model, re::render::Model>> = mk();
     let b: re::math::mat::Mat4x4<re::math::mat::RealToReal<3, re::render::World, re::render::Model>> = mk();
     let _ = a.compose(&b);
 }
 
-pub fn p356() {
+pub fn p362() {
     let a: re::math::mat::Mat4x4<re::math::mat::RealToReal<3, re::render::Model, re::render::Model>> = mk();
     let b: re::math::mat::Mat4x4<re::math::mat::RealToProj<re::render::Model>> = mk();
     let _ = a.then(&b);
 }
 
-pub fn p364() {
+pub fn p370() {
     let a: re::math::mat::Mat4x4<re::math::mat::RealToReal<3, re::render::Model, re::render::Model>> = mk();
     let b: re::math::point::Point3<re::render::Model> = mk();
     let _r: re::math::point::Point3<re::render::Model> = a.apply_pt(&b);
 }
 
-pub fn p368() {
+pub fn p374() {
     let a: re::math::mat::Mat4x4<re::math::mat::RealToReal<3, re::render::Model, re::render::Model>> = mk();
     let b: re::math::point::Point3<re::render::Model> = mk();
     let _ = a.apply_pt(&b);
 }
 
-pub fn p383() {
+pub fn p389() {
     let a: re::math::mat::Mat4x4<re::math::mat::RealToReal<3, re::render::Model, re::render::Model>> = mk();
     let b: re::math::vec::Vec3<re::render::Model> = mk();
     let _r: re::math::vec::Vec3<re::render::Model> = a.apply(&b);
 }
 
-pub fn p386() {
+pub fn p392() {
     let a: re::math::mat::Mat4x4<re::math::mat::RealToReal<3, re::render::Model, re::render::Model>> = mk();
     let b: re::math::vec::Vec3<re::render::Model> = mk();
     let _ = a.apply(&b);
 }
 
-pub fn p396() {
+pub fn p402() {
     let a: re::math::mat::Mat4x4<re::math::mat::RealToReal<3, re::render::Model, re::render::Model>> = mk();
     let _ = re::render::cam::Camera::new((8, 8)).mode(a.to());
 }
 
-pub fn p397() {
+pub fn p403() {
     let a: re::math::mat::Mat4x4<re::math::mat::RealToReal<3, re::render::Model, re::render::Model>> = mk();
     let _ = a.determinant();
 }
 
-pub fn p398() {
+pub fn p404() {
     let a: re::math::mat::Mat4x4<re::math::mat::RealToReal<3, re::render::Model, re::render::Model>> = mk();
     let _ = a.inverse();
 }
 
-pub fn p399() {
+pub fn p405() {
     let a: re::math::mat::Mat4x4<re::math::mat::RealToReal<3, re::render::Model, re::render::Model>> = mk();
     let _ = a.transpose();
 }
 
-pub fn p401() {
+pub fn p407() {
     let a: re::math::mat::Mat4x4<re::math::mat::RealToReal<3, re::render::Model, ()>> = mk();
     let b: re::math::mat::Mat4x4<re::math::mat::RealToReal<3, re::render::Model, re::render::Model>> = mk();
     let _ = a.compose(&b);
 }
 
-pub fn p406() {
+pub fn p412() {
     let a: re::math::mat::Mat4x4<re::math::mat::RealToReal<3, re::render::Model, ()>> = mk();
     let b: re::math::mat::Mat4x4<re::math::mat::RealToReal<3, (), re::render::Model>> = mk();
     let _ = a.compose(&b);
 }
 
-pub fn p407() {
+pub fn p413() {
     let a: re::math::mat::Mat4x4<re::math::mat::RealToReal<3, re::render::Model, ()>> = mk();
     let b: re::math::mat::Mat4x4<re::math::mat::RealToReal<3, (), re::render::Model>> = mk();
     let _ = a.then(&b);
 }
 
-pub fn p409() {
+pub fn p415() {
     let a: re::math::mat::Mat4x4<re::math::mat::RealToReal<3, re::render::Model, ()>> = mk();
     let b: re::math::mat::Mat4x4<re::math::mat::RealToReal<3, (), ()>> = mk();
     let _ = a.then(&b);
 }
 
-pub fn p411() {
+pub fn p417() {
     let a: re::math::mat::Mat4x4<re::math::mat::RealToReal<3, re::render::Model, ()>> = mk();
     let b: re::math::mat::Mat4x4<re::math::mat::RealToReal<3, (), re::render::World>> = mk();
     let _ = a.then(&b);
 }
 
-pub fn p413() {
+pub fn p419() {
     let a: re::math::mat::Mat4x4<re::math::mat::RealToReal<3, re::render::Model, ()>> = mk();
     let b: re::math::mat::Mat4x4<re::math::mat::RealToReal<3, re::render::World, re::render::Model>> = mk();
     let _ = a.compose(&b);
 }
 
-pub fn p421() {
+pub fn p427() {
     let a: re::math::mat::Mat4x4<re::math::mat::RealToReal<3, re::render::Model, ()>> = mk();
     let b: re::math::mat::Mat4x4<re::math::mat::RealToProj<()>> = mk();
     let _ = a.then(&b);
 }
 
-pub fn p428() {
+pub fn p434() {
     let a: re::math::mat::Mat4x4<re::math::mat::RealToReal<3, re::render::Model, ()>> = mk();
     let b: re::math::point::Point3<re::render::Model> = mk();
     let _r: re::math::point::Point3<()> = a.apply_pt(&b);
 }
 
-pub fn p430() {
+pub fn p436() {
     let a: re::math::mat::Mat4x4<re::math::mat::RealToReal<3, re::render::Model, ()>> = mk();
     let b: re::math::point::Point3<re::render::Model> = mk();
     let _ = a.apply_pt(&b);
 }
 
-pub fn p443() {
+pub fn p449() {
     let a: re::math::mat::Mat4x4<re::math::mat::RealToReal<3, re::render::Model, ()>> = mk();
     let b: re::math::vec::Vec3<re::render::Model> = mk();
     let _r: re::math::vec::Vec3<()> = a.apply(&b);
 }
 
-pub fn p445() {
+pub fn p451() {
     let a: re::math::mat::Mat4x4<re::math::mat::RealToReal<3, re::render::Model, ()>> = mk();
     let b: re::math::vec::Vec3<re::render::Model> = mk();
     let _ = a.apply(&b);
 }
 
-pub fn p454() {
+pub fn p460() {
     let a: re::math::mat::Mat4x4<re::math::mat::RealToReal<3, re::render::Model, ()>> = mk();
     let _ = a.determinant();
 }
 
-pub fn p455() {
+pub fn p461() {
     let a: re::math::mat::Mat4x4<re::math::mat::RealToReal<3, re::render::Model, ()>> = mk();
     let _ = a.inverse();
 }
 
-pub fn p456() {
+pub fn p462() {
     let a: re::math::mat::Mat4x4<re::math::mat::RealToReal<3, re::render::Model, ()>> = mk();
     let _ = a.transpose();
 }
 
-pub fn p460() {
+pub fn p466() {
     let a: re::math::mat::Mat4x4<re::math::mat::RealToReal<3, re::render::Model, re::render::View>> = mk();
     let b: re::math::mat::Mat4x4<re::render::ViewToProj> = mk();
     let _ = a.then(&b);
 }
 
-pub fn p463() {
+pub fn p469() {
     let a: re::math::mat::Mat4x4<re::math::mat::RealToReal<3, re::render::Model, re::render::View>> = mk();
     let b: re::math::point::Point3<re::render::Model> = mk();
     let _ = a.apply_pt(&b);
 }
 
-pub fn p469() {
+pub fn p475() {
     let a: re::math::mat::Mat4x4<re::math::mat::RealToReal<3, re::render::Model, re::render::View>> = mk();
     let _ = re::render::cam::Camera::new((8, 8)).mode(a.to());
 }
 
-pub fn p474() {
+pub fn p480() {
     let a: re::math::mat::Mat4x4<re::math::mat::RealToReal<3, re::render::Model, re::render::World>> = mk();
     let b: re::math::mat::Mat4x4<re::render::WorldToView> = mk();
     let _ = a.then(&b);
 }
 
-pub fn p476() {
+pub fn p482() {
     let a: re::math::mat::Mat4x4<re::math::mat::RealToReal<3, re::render::Model, re::render::World>> = mk();
     let b: re::math::mat::Mat4x4<re::math::mat::RealToReal<3, re::render::Model, re::render::Model>> = mk();
     let _r: re::math::mat::Mat4x4<re::math::mat::RealToReal<3, re::render::Model, re::render::World>> = a.compose(&b);
 }
 
-pub fn p480() {
+pub fn p486() {
     let a: re::math::mat::Mat4x4<re::math::mat::RealToReal<3, re::render::Model, re::render::World>> = mk();
     let b: re::math::mat::Mat4x4<re::math::mat::RealToReal<3, re::render::Model, re::render::Model>> = mk();
     let _ = a.compose(&b);
 }
 
-pub fn p490() {
+pub fn p496() {
     let a: re::math::mat::Mat4x4<re::math::mat::RealToReal<3, re::render::Model, re::render::World>> = mk();
     let b: re::math::mat::Mat4x4<re::math::mat::RealToReal<3, (), re::render::Model>> = mk();
     let _ = a.compose(&b);
 }
 
-pub fn p498() {
+pub fn p504() {
     let a: re::math::mat::Mat4x4<re::math::mat::RealToReal<3, re::render::Model, re::render::World>> = mk();
     let b: re::math::mat::Mat4x4<re::math::mat::RealToReal<3, re::render::World, re::render::Model>> = mk();
     let _r: re::math::mat::Mat4x4<re::math::mat::RealToReal<3, re::render::World, re::render::World>> = a.compose(&b);
 }
 
-pub fn p499() {
+pub fn p505() {
     let a: re::math::mat::Mat4x4<re::math::mat::RealToReal<3, re::render::Model, re::render::World>> = mk();
     let b: re::math::mat::Mat4x4<re::math::mat::RealToReal<3, re::render::World, re::render::Model>> = mk();
     let _ = a.compose(&b);
 }
 
-pub fn p500() {
+pub fn p506() {
     let a: re::math::mat::Mat4x4<re::math::mat::RealToReal<3, re::render::Model, re::render::World>> = mk();
     let b: re::math::mat::Mat4x4<re::math::mat::RealToReal<3, re::render::World, re::render::Model>> = mk();
-    let _ = a.then(&b);
-}
-
-pub fn p502() {
-    let a: re::math::mat::Mat4x4<re::math::mat::RealToReal<3, re::render::Model, re::render::World>> = mk();
-    let b: re::math::mat::Mat4x4<re::math::mat::RealToReal<3, re::render::World, ()>> = mk();
     let _ = a.then(&b);
 }
 
 pub fn p508() {
     let a: re::math::mat::Mat4x4<re::math::mat::RealToReal<3, re::render::Model, re::render::World>> = mk();
-    let b: re::math::mat::Mat4x4<re::math::mat::RealToReal<3, re::render::World, re::render::World>> = mk();
+    let b: re::math::mat::Mat4x4<re::math::mat::RealToReal<3, re::render::World, ()>> = mk();
     let _ = a.then(&b);
 }
 
 pub fn p514() {
     let a: re::math::mat::Mat4x4<re::math::mat::RealToReal<3, re::render::Model, re::render::World>> = mk();
-    let b: re::math::mat::Mat4x4<re::math::mat::RealToProj<re::render::World>> = mk();
+    let b: re::math::mat::Mat4x4<re::math::mat::RealToReal<3, re::render::World, re::render::World>> = mk();
     let _ = a.then(&b);
 }
 
 pub fn p520() {
     let a: re::math::mat::Mat4x4<re::math::mat::RealToReal<3, re::render::Model, re::render::World>> = mk();
+    let b: re::math::mat::Mat4x4<re::math::mat::RealToProj<re::render::World>> = mk();
+    let _ = a.then(&b);
+}
+
+pub fn p526() {
+    let a: re::math::mat::Mat4x4<re::math::mat::RealToReal<3, re::render::Model, re::render::World>> = mk();
     let b: re::math::point::Point3<re::render::Model> = mk();
     let _r: re::math::point::Point3<re::render::World> = a.apply_pt(&b);
 }
 
-pub fn p522() {
+pub fn p528() {
     let a: re::math::mat::Mat4x4<re::math::mat::RealToReal<3, re::render::Model, re::render::World>> = mk();
     let b: re::math::point::Point3<re::render::Model> = mk();
     let _ = a.apply_pt(&b);
 }
 
-pub fn p539() {
+pub fn p545() {
     let a: re::math::mat::Mat4x4<re::math::mat::RealToReal<3, re::render::Model, re::render::World>> = mk();
     let b: re::math::vec::Vec3<re::render::Model> = mk();
     let _r: re::math::vec::Vec3<re::render::World> = a.apply(&b);
 }
 
-pub fn p540() {
+pub fn p546() {
     let a: re::math::mat::Mat4x4<re::math::mat::RealToReal<3, re::render::Model, re::render::World>> = mk();
     let b: re::math::vec::Vec3<re::render::Model> = mk();
     let _ = a.apply(&b);
 }
 
-pub fn p550() {
+pub fn p556() {
     let a: re::math::mat::Mat4x4<re::math::mat::RealToReal<3, re::render::Model, re::render::World>> = mk();
     let _ = re::render::cam::Camera::new((8, 8)).mode(a.to());
 }
 
-pub fn p551() {
+pub fn p557() {
     let a: re::math::mat::Mat4x4<re::math::mat::RealToReal<3, re::render::Model, re::render::World>> = mk();
     let _ = a.determinant();
 }
 
-pub fn p552() {
+pub fn p558() {
     let a: re::math::mat::Mat4x4<re::math::mat::RealToReal<3, re::render::Model, re::render::World>> = mk();
     let _ = a.inverse();
 }
 
-pub fn p553() {
+pub fn p559() {
     let a: re::math::mat::Mat4x4<re::math::mat::RealToReal<3, re::render::Model, re::render::World>> = mk();
     let _ = a.transpose();
 }
 
-pub fn p555() {
+pub fn p561() {
     let a: re::math::mat::Mat4x4<re::math::mat::RealToReal<3, (), re::render::Model>> = mk();
     let b: re::math::mat::Mat4x4<re::math::mat::RealToReal<3, re::render::Model, re::render::Model>> = mk();
     let _ = a.then(&b);
 }
 
-pub fn p556() {
+pub fn p562() {
     let a: re::math::mat::Mat4x4<re::math::mat::RealToReal<3, (), re::render::Model>> = mk();
     let b: re::math::mat::Mat4x4<re::math::mat::RealToReal<3, re::render::Model, ()>> = mk();
     let _ = a.compose(&b);
 }
 
-pub fn p557() {
+pub fn p563() {
     let a: re::math::mat::Mat4x4<re::math::mat::RealToReal<3, (), re::render::Model>> = mk();
     let b: re::math::mat::Mat4x4<re::math::mat::RealToReal<3, re::render::Model, ()>> = mk();
     let _ = a.then(&b);
 }
 
-pub fn p559() {
+pub fn p565() {
     let a: re::math::mat::Mat4x4<re::math::mat::RealToReal<3, (), re::render::Model>> = mk();
     let b: re::math::mat::Mat4x4<re::math::mat::RealToReal<3, re::render::Model, re::render::World>> = mk();
     let _ = a.then(&b);
 }
 
-pub fn p563() {
+pub fn p569() {
     let a: re::math::mat::Mat4x4<re::math::mat::RealToReal<3, (), re::render::Model>> = mk();
     let b: re::math::mat::Mat4x4<re::math::mat::RealToReal<3, (), ()>> = mk();
     let _ = a.compose(&b);
 }
 
-pub fn p569() {
+pub fn p575() {
     let a: re::math::mat::Mat4x4<re::math::mat::RealToReal<3, (), re::render::Model>> = mk();
     let b: re::math::mat::Mat4x4<re::math::mat::RealToReal<3, re::render::World, ()>> = mk();
     let _ = a.compose(&b);
 }
 
-pub fn p573() {
+pub fn p579() {
     let a: re::math::mat::Mat4x4<re::math::mat::RealToReal<3, (), re::render::Model>> = mk();
     let b: re::math::mat::Mat4x4<re::math::mat::RealToProj<re::render::Model>> = mk();
     let _ = a.then(&b);
 }
 
-pub fn p585() {
+pub fn p591() {
     let a: re::math::mat::Mat4x4<re::math::mat::RealToReal<3, (), re::render::Model>> = mk();
     let b: re::math::point::Point3<()> = mk();
     let _r: re::math::point::Point3<re::render::Model> = a.apply_pt(&b);
 }
 
-pub fn p588() {
+pub fn p594() {
     let a: re::math::mat::Mat4x4<re::math::mat::RealToReal<3, (), re::render::Model>> = mk();
     let b: re::math::point::Point3<()> = mk();
     let _ = a.apply_pt(&b);
 }
 
-pub fn p600() {
+pub fn p606() {
     let a: re::math::mat::Mat4x4<re::math::mat::RealToReal<3, (), re::render::Model>> = mk();
     let b: re::math::vec::Vec3<()> = mk();
     let _r: re::math::vec::Vec3<re::render::Model> = a.apply(&b);
 }
 
-pub fn p603() {
+pub fn p609() {
     let a: re::math::mat::Mat4x4<re::math::mat::RealToReal<3, (), re::render::Model>> = mk();
     let b: re::math::vec::Vec3<()> = mk();
     let _ = a.apply(&b);
 }
 
-pub fn p608() {
+pub fn p614() {
     let a: re::math::mat::Mat4x4<re::math::mat::RealToReal<3, (), re::render::Model>> = mk();
     let _ = a.determinant();
 }
 
-pub fn p609() {
+pub fn p615() {
     let a: re::math::mat::Mat4x4<re::math::mat::RealToReal<3, (), re::render::Model>> = mk();
     let _ = a.inverse();
 }
 
-pub fn p610() {
+pub fn p616() {
     let a: re::math::mat::Mat4x4<re::math::mat::RealToReal<3, (), re::render::Model>> = mk();
     let _ = a.transpose();
 }
 
-pub fn p614() {
+pub fn p620() {
     let a: re::math::mat::Mat4x4<re::math::mat::RealToReal<3, (), ()>> = mk();
     let b: re::math::mat::Mat4x4<re::math::mat::RealToReal<3, re::render::Model, ()>> = mk();
     let _ = a.compose(&b);
 }
 
-pub fn p618() {
+pub fn p624() {
     let a: re::math::mat::Mat4x4<re::math::mat::RealToReal<3, (), ()>> = mk();
     let b: re::math::mat::Mat4x4<re::math::mat::RealToReal<3, (), re::render::Model>> = mk();
     let _ = a.then(&b);
 }
 
-pub fn p619() {
+pub fn p625() {
     let a: re::math::mat::Mat4x4<re::math::mat::RealToReal<3, (), ()>> = mk();
     let b: re::math::mat::Mat4x4<re::math::mat::RealToReal<3, (), ()>> = mk();
     let _ = a.compose(&b);
 }
 
-pub fn p620() {
+pub fn p626() {
     let a: re::math::mat::Mat4x4<re::math::mat::RealToReal<3, (), ()>> = mk();
     let b: re::math::mat::Mat4x4<re::math::mat::RealToReal<3, (), ()>> = mk();
     let _ = a.then(&b);
 }
 
-pub fn p622() {
+pub fn p628() {
     let a: re::math::mat::Mat4x4<re::math::mat::RealToReal<3, (), ()>> = mk();
     let b: re::math::mat::Mat4x4<re::math::mat::RealToReal<3, (), re::render::World>> = mk();
     let _ = a.then(&b);
 }
 
-pub fn p626() {
+pub fn p632() {
     let a: re::math::mat::Mat4x4<re::math::mat::RealToReal<3, (), ()>> = mk();
     let b: re::math::mat::Mat4x4<re::math::mat::RealToReal<3, re::render::World, ()>> = mk();
     let _ = a.compose(&b);
 }
 
-pub fn p632() {
+pub fn p638() {
     let a: re::math::mat::Mat4x4<re::math::mat::RealToReal<3, (), ()>> = mk();
     let b: re::math::mat::Mat4x4<re::math::mat::RealToProj<()>> = mk();
     let _ = a.then(&b);
 }
 
-pub fn p643() {
+pub fn p649() {
     let a: re::math::mat::Mat4x4<re::math::mat::RealToReal<3, (), ()>> = mk();
     let b: re::math::point::Point3<()> = mk();
     let _r: re::math::point::Point3<()> = a.apply_pt(&b);
 }
 
-pub fn p645() {
+pub fn p651() {
     let a: re::math::mat::Mat4x4<re::math::mat::RealToReal<3, (), ()>> = mk();
     let b: re::math::point::Point3<()> = mk();
     let _ = a.apply_pt(&b);
 }
 
-pub fn p658() {
+pub fn p664() {
     let a: re::math::mat::Mat4x4<re::math::mat::RealToReal<3, (), ()>> = mk();
     let b: re::math::vec::Vec3<()> = mk();
     let _r: re::math::vec::Vec3<()> = a.apply(&b);
 }
 
-pub fn p660() {
+pub fn p666() {
     let a: re::math::mat::Mat4x4<re::math::mat::RealToReal<3, (), ()>> = mk();
     let b: re::math::vec::Vec3<()> = mk();
     let _ = a.apply(&b);
 }
 
-pub fn p665() {
+pub fn p671() {
     let a: re::math::mat::Mat4x4<re::math::mat::RealToReal<3, (), ()>> = mk();
     let _ = a.determinant();
 }
 
-pub fn p666() {
+pub fn p672() {
     let a: re::math::mat::Mat4x4<re::math::mat::RealToReal<3, (), ()>> = mk();
     let _ = a.inverse();
 }
 
-pub fn p667() {
+pub fn p673() {
     let a: re::math::mat::Mat4x4<re::math::mat::RealToReal<3, (), ()>> = mk();
     let _ = a.transpose();
 }
 
-pub fn p671() {
-    let a: re::math::mat::Mat4x4<re::math::mat::RealToReal<3, (), re::render::World>> = mk();
-    let b: re::math::mat::Mat4x4<re::math::mat::RealToReal<3, re::render::Model, ()>> = mk();
-    let _ = a.compose(&b);
-}
-
 pub fn p677() {
     let a: re::math::mat::Mat4x4<re::math::mat::RealToReal<3, (), re::render::World>> = mk();
-    let b: re::math::mat::Mat4x4<re::math::mat::RealToReal<3, (), ()>> = mk();
-    let _ = a.compose(&b);
-}
-
-pub fn p681() {
-    let a: re::math::mat::Mat4x4<re::math::mat::RealToReal<3, (), re::render::World>> = mk();
-    let b: re::math::mat::Mat4x4<re::math::mat::RealToReal<3, re::render::World, re::render::Model>> = mk();
-    let _ = a.then(&b);
-}
-
-pub fn p682() {
-    let a: re::math::mat::Mat4x4<re::math::mat::RealToReal<3, (), re::render::World>> = mk();
-    let b: re::math::mat::Mat4x4<re::math::mat::RealToReal<3, re::render::World, ()>> = mk();
+    let b: re::math::mat::Mat4x4<re::math::mat::RealToReal<3, re::render::Model, ()>> = mk();
     let _ = a.compose(&b);
 }
 
 pub fn p683() {
     let a: re::math::mat::Mat4x4<re::math::mat::RealToReal<3, (), re::render::World>> = mk();
-    let b: re::math::mat::Mat4x4<re::math::mat::RealToReal<3, re::render::World, ()>> = mk();
+    let b: re::math::mat::Mat4x4<re::math::mat::RealToReal<3, (), ()>> = mk();
+    let _ = a.compose(&b);
+}
+
+pub fn p687() {
+    let a: re::math::mat::Mat4x4<re::math::mat::RealToReal<3, (), re::render::World>> = mk();
+    let b: re::math::mat::Mat4x4<re::math::mat::RealToReal<3, re::render::World, re::render::Model>> = mk();
     let _ = a.then(&b);
 }
 
-pub fn p685() {
+pub fn p688() {
     let a: re::math::mat::Mat4x4<re::math::mat::RealToReal<3, (), re::render::World>> = mk();
-    let b: re::math::mat::Mat4x4<re::math::mat::RealToReal<3, re::render::World, re::render::World>> = mk();
+    let b: re::math::mat::Mat4x4<re::math::mat::RealToReal<3, re::render::World, ()>> = mk();
+    let _ = a.compose(&b);
+}
+
+pub fn p689() {
+    let a: re::math::mat::Mat4x4<re::math::mat::RealToReal<3, (), re::render::World>> = mk();
+    let b: re::math::mat::Mat4x4<re::math::mat::RealToReal<3, re::render::World, ()>> = mk();
     let _ = a.then(&b);
 }
 
 pub fn p691() {
     let a: re::math::mat::Mat4x4<re::math::mat::RealToReal<3, (), re::render::World>> = mk();
+    let b: re::math::mat::Mat4x4<re::math::mat::RealToReal<3, re::render::World, re::render::World>> = mk();
+    let _ = a.then(&b);
+}
+
+pub fn p697() {
+    let a: re::math::mat::Mat4x4<re::math::mat::RealToReal<3, (), re::render::World>> = mk();
     let b: re::math::mat::Mat4x4<re::math::mat::RealToProj<re::render::World>> = mk();
     let _ = a.then(&b);
 }
 
-pub fn p701() {
+pub fn p707() {
     let a: re::math::mat::Mat4x4<re::math::mat::RealToReal<3, (), re::render::World>> = mk();
     let b: re::math::point::Point3<()> = mk();
     let _r: re::math::point::Point3<re::render::World> = a.apply_pt(&b);
 }
 
-pub fn p702() {
+pub fn p708() {
     let a: re::math::mat::Mat4x4<re::math::mat::RealToReal<3, (), re::render::World>> = mk();
     let b: re::math::point::Point3<()> = mk();
     let _ = a.apply_pt(&b);
 }
 
-pub fn p716() {
+pub fn p722() {
     let a: re::math::mat::Mat4x4<re::math::mat::RealToReal<3, (), re::render::World>> = mk();
     let b: re::math::vec::Vec3<()> = mk();
     let _r: re::math::vec::Vec3<re::render::World> = a.apply(&b);
 }
 
-pub fn p717() {
+pub fn p723() {
     let a: re::math::mat::Mat4x4<re::math::mat::RealToReal<3, (), re::render::World>> = mk();
     let b: re::math::vec::Vec3<()> = mk();
     let _ = a.apply(&b);
 }
 
-pub fn p722() {
+pub fn p728() {
     let a: re::math::mat::Mat4x4<re::math::mat::RealToReal<3, (), re::render::World>> = mk();
     let _ = a.determinant();
 }
 
-pub fn p723() {
+pub fn p729() {
     let a: re::math::mat::Mat4x4<re::math::mat::RealToReal<3, (), re::render::World>> = mk();
     let _ = a.inverse();
 }
 
-pub fn p724() {
+pub fn p730() {
     let a: re::math::mat::Mat4x4<re::math::mat::RealToReal<3, (), re::render::World>> = mk();
     let _ = a.transpose();
 }
 
-pub fn p725() {
+pub fn p731() {
     let a: re::math::mat::Mat4x4<re::math::mat::RealToReal<3, crate::UserTag, crate::UserTag>> = mk();
     let b: re::math::mat::Mat4x4<re::math::mat::RealToReal<3, crate::UserTag, crate::UserTag>> = mk();
     let _ = a.compose(&b);
 }
 
-pub fn p726() {
+pub fn p732() {
     let a: re::math::mat::Mat4x4<re::math::mat::RealToReal<3, crate::UserTag, crate::UserTag>> = mk();
     let b: re::math::mat::Mat4x4<re::math::mat::RealToReal<3, crate::UserTag, crate::UserTag>> = mk();
     let _ = a.then(&b);
 }
 
-pub fn p728() {
+pub fn p734() {
     let a: re::math::mat::Mat4x4<re::math::mat::RealToReal<3, crate::UserTag, crate::UserTag>> = mk();
     let b: re::math::mat::Mat4x4<re::math::mat::RealToReal<3, crate::UserTag, re::render::World>> = mk();
     let _ = a.then(&b);
 }
 
-pub fn p730() {
+pub fn p736() {
     let a: re::math::mat::Mat4x4<re::math::mat::RealToReal<3, crate::UserTag, crate::UserTag>> = mk();
     let b: re::math::mat::Mat4x4<re::math::mat::RealToReal<3, re::render::World, crate::UserTag>> = mk();
     let _ = a.compose(&b);
 }
 
-pub fn p731() {
+pub fn p737() {
     let a: re::math::mat::Mat4x4<re::math::mat::RealToReal<3, crate::UserTag, crate::UserTag>> = mk();
     let b: re::math::point::Point3<crate::UserTag> = mk();
     let _ = a.apply_pt(&b);
 }
 
-pub fn p733() {
+pub fn p739() {
     let a: re::math::mat::Mat4x4<re::math::mat::RealToReal<3, crate::UserTag, crate::UserTag>> = mk();
     let b: re::math::vec::Vec3<crate::UserTag> = mk();
     let _ = a.apply(&b);
 }
 
-pub fn p735() {
+pub fn p741() {
     let a: re::math::mat::Mat4x4<re::math::mat::RealToReal<3, crate::UserTag, crate::UserTag>> = mk();
     let _ = a.determinant();
 }
 
-pub fn p736() {
+pub fn p742() {
     let a: re::math::mat::Mat4x4<re::math::mat::RealToReal<3, crate::UserTag, crate::UserTag>> = mk();
     let _ = a.inverse();
 }
 
-pub fn p737() {
+pub fn p743() {
     let a: re::math::mat::Mat4x4<re::math::mat::RealToReal<3, crate::UserTag, crate::UserTag>> = mk();
     let _ = a.transpose();
 }
 
-pub fn p739() {
+pub fn p745() {
     let a: re::math::mat::Mat4x4<re::math::mat::RealToReal<3, crate::UserTag, re::render::World>> = mk();
     let b: re::math::mat::Mat4x4<re::math::mat::RealToReal<3, crate::UserTag, crate::UserTag>> = mk();
     let _ = a.compose(&b);
 }
 
-pub fn p742() {
+pub fn p748() {
     let a: re::math::mat::Mat4x4<re::math::mat::RealToReal<3, crate::UserTag, re::render::World>> = mk();
     let b: re::math::mat::Mat4x4<re::math::mat::RealToReal<3, re::render::World, crate::UserTag>> = mk();
     let _ = a.compose(&b);
 }
 
-pub fn p743() {
+pub fn p749() {
     let a: re::math::mat::Mat4x4<re::math::mat::RealToReal<3, crate::UserTag, re::render::World>> = mk();
     let b: re::math::mat::Mat4x4<re::math::mat::RealToReal<3, re::render::World, crate::UserTag>> = mk();
     let _ = a.then(&b);
 }
 
-pub fn p744() {
+pub fn p750() {
     let a: re::math::mat::Mat4x4<re::math::mat::RealToReal<3, crate::UserTag, re::render::World>> = mk();
     let b: re::math::point::Point3<crate::UserTag> = mk();
     let _ = a.apply_pt(&b);
 }
 
-pub fn p746() {
+pub fn p752() {
     let a: re::math::mat::Mat4x4<re::math::mat::RealToReal<3, crate::UserTag, re::render::World>> = mk();
     let b: re::math::vec::Vec3<crate::UserTag> = mk();
     let _ = a.apply(&b);
 }
 
-pub fn p748() {
+pub fn p754() {
     let a: re::math::mat::Mat4x4<re::math::mat::RealToReal<3, crate::UserTag, re::render::World>> = mk();
     let _ = a.determinant();
 }
 
-pub fn p749() {
+pub fn p755() {
     let a: re::math::mat::Mat4x4<re::math::mat::RealToReal<3, crate::UserTag, re::render::World>> = mk();
     let _ = a.inverse();
 }
 
-pub fn p750() {
+pub fn p756() {
     let a: re::math::mat::Mat4x4<re::math::mat::RealToReal<3, crate::UserTag, re::render::World>> = mk();
     let _ = a.transpose();
 }
 
-pub fn p751() {
+pub fn p757() {
     let a: re::math::mat::Mat4x4<re::math::mat::RealToReal<3, re::render::View, re::render::Model>> = mk();
     let b: re::math::mat::Mat4x4<re::render::ModelToProj> = mk();
     let _ = a.then(&b);
 }
 
-pub fn p752() {
+pub fn p758() {
     let a: re::math::mat::Mat4x4<re::math::mat::RealToReal<3, re::render::View, re::render::Model>> = mk();
     let b: re::math::mat::Mat4x4<re::render::ModelToView> = mk();
-    let _ = a.then(&b);
-}
-
-pub fn p753() {
-    let a: re::math::mat::Mat4x4<re::math::mat::RealToReal<3, re::render::View, re::render::Model>> = mk();
-    let b: re::math::mat::Mat4x4<re::render::ModelToWorld> = mk();
     let _ = a.then(&b);
 }
 
 pub fn p759() {
     let a: re::math::mat::Mat4x4<re::math::mat::RealToReal<3, re::render::View, re::render::Model>> = mk();
+    let b: re::math::mat::Mat4x4<re::render::ModelToWorld> = mk();
+    let _ = a.then(&b);
+}
+
+pub fn p765() {
+    let a: re::math::mat::Mat4x4<re::math::mat::RealToReal<3, re::render::View, re::render::Model>> = mk();
     let b: re::math::point::Point3<re::render::View> = mk();
     let _ = a.apply_pt(&b);
 }
 
-pub fn p763() {
+pub fn p769() {
     let a: re::math::mat::Mat4x4<re::math::mat::RealToReal<3, re::render::View, re::render::Model>> = mk();
     let _ = re::render::cam::Camera::new((8, 8)).mode(a.to());
 }
 
-pub fn p767() {
+pub fn p773() {
     let a: re::math::mat::Mat4x4<re::math::mat::RealToReal<3, re::render::View, re::render::View>> = mk();
     let b: re::math::mat::Mat4x4<re::render::ViewToProj> = mk();
     let _ = a.then(&b);
 }
 
-pub fn p772() {
+pub fn p778() {
     let a: re::math::mat::Mat4x4<re::math::mat::RealToReal<3, re::render::View, re::render::View>> = mk();
     let b: re::math::point::Point3<re::render::View> = mk();
     let _ = a.apply_pt(&b);
 }
 
-pub fn p776() {
+pub fn p782() {
     let a: re::math::mat::Mat4x4<re::math::mat::RealToReal<3, re::render::View, re::render::View>> = mk();
     let _ = re::render::cam::Camera::new((8, 8)).mode(a.to());
 }
 
-pub fn p781() {
+pub fn p787() {
     let a: re::math::mat::Mat4x4<re::math::mat::RealToReal<3, re::render::View, re::render::World>> = mk();
     let b: re::math::mat::Mat4x4<re::render::WorldToView> = mk();
     let _ = a.then(&b);
 }
 
-pub fn p785() {
+pub fn p791() {
     let a: re::math::mat::Mat4x4<re::math::mat::RealToReal<3, re::render::View, re::render::World>> = mk();
     let b: re::math::point::Point3<re::render::View> = mk();
     let _ = a.apply_pt(&b);
 }
 
-pub fn p789() {
+pub fn p795() {
     let a: re::math::mat::Mat4x4<re::math::mat::RealToReal<3, re::render::View, re::render::World>> = mk();
     let _ = re::render::cam::Camera::new((8, 8)).mode(a.to());
 }
 
-pub fn p790() {
+pub fn p796() {
     let a: re::math::mat::Mat4x4<re::math::mat::RealToReal<3, re::render::World, re::render::Model>> = mk();
     let b: re::math::mat::Mat4x4<re::render::ModelToProj> = mk();
     let _ = a.then(&b);
 }
 
-pub fn p791() {
+pub fn p797() {
     let a: re::math::mat::Mat4x4<re::math::mat::RealToReal<3, re::render::World, re::render::Model>> = mk();
     let b: re::math::mat::Mat4x4<re::render::ModelToView> = mk();
     let _ = a.then(&b);
 }
 
-pub fn p792() {
+pub fn p798() {
     let a: re::math::mat::Mat4x4<re::math::mat::RealToReal<3, re::render::World, re::render::Model>> = mk();
     let b: re::math::mat::Mat4x4<re::render::ModelToWorld> = mk();
     let _ = a.then(&b);
 }
 
-pub fn p800() {
+pub fn p806() {
     let a: re::math::mat::Mat4x4<re::math::mat::RealToReal<3, re::render::World, re::render::Model>> = mk();
     let b: re::math::mat::Mat4x4<re::math::mat::RealToReal<3, re::render::Model, re::render::Model>> = mk();
     let _ = a.then(&b);
 }
 
-pub fn p802() {
+pub fn p808() {
     let a: re::math::mat::Mat4x4<re::math::mat::RealToReal<3, re::render::World, re::render::Model>> = mk();
     let b: re::math::mat::Mat4x4<re::math::mat::RealToReal<3, re::render::Model, ()>> = mk();
     let _ = a.then(&b);
 }
 
-pub fn p803() {
+pub fn p809() {
     let a: re::math::mat::Mat4x4<re::math::mat::RealToReal<3, re::render::World, re::render::Model>> = mk();
     let b: re::math::mat::Mat4x4<re::math::mat::RealToReal<3, re::render::Model, re::render::World>> = mk();
     let _r: re::math::mat::Mat4x4<re::math::mat::RealToReal<3, re::render::Model, re::render::Model>> = a.compose(&b);
 }
 
-pub fn p807() {
+pub fn p813() {
     let a: re::math::mat::Mat4x4<re::math::mat::RealToReal<3, re::render::World, re::render::Model>> = mk();
     let b: re::math::mat::Mat4x4<re::math::mat::RealToReal<3, re::render::Model, re::render::World>> = mk();
     let _ = a.compose(&b);
 }
 
-pub fn p808() {
+pub fn p814() {
     let a: re::math::mat::Mat4x4<re::math::mat::RealToReal<3, re::render::World, re::render::Model>> = mk();
     let b: re::math::mat::Mat4x4<re::math::mat::RealToReal<3, re::render::Model, re::render::World>> = mk();
     let _ = a.then(&b);
 }
 
-pub fn p814() {
+pub fn p820() {
     let a: re::math::mat::Mat4x4<re::math::mat::RealToReal<3, re::render::World, re::render::Model>> = mk();
     let b: re::math::mat::Mat4x4<re::math::mat::RealToReal<3, (), re::render::World>> = mk();
     let _ = a.compose(&b);
 }
 
-pub fn p825() {
+pub fn p831() {
     let a: re::math::mat::Mat4x4<re::math::mat::RealToReal<3, re::render::World, re::render::Model>> = mk();
     let b: re::math::mat::Mat4x4<re::math::mat::RealToReal<3, re::render::World, re::render::World>> = mk();
     let _r: re::math::mat::Mat4x4<re::math::mat::RealToReal<3, re::render::World, re::render::Model>> = a.compose(&b);
 }
 
-pub fn p828() {
+pub fn p834() {
     let a: re::math::mat::Mat4x4<re::math::mat::RealToReal<3, re::render::World, re::render::Model>> = mk();
     let b: re::math::mat::Mat4x4<re::math::mat::RealToReal<3, re::render::World, re::render::World>> = mk();
     let _ = a.compose(&b);
 }
 
-pub fn p830() {
+pub fn p836() {
     let a: re::math::mat::Mat4x4<re::math::mat::RealToReal<3, re::render::World, re::render::Model>> = mk();
     let b: re::math::mat::Mat4x4<re::math::mat::RealToProj<re::render::Model>> = mk();
     let _ = a.then(&b);
 }
 
-pub fn p849() {
+pub fn p855() {
     let a: re::math::mat::Mat4x4<re::math::mat::RealToReal<3, re::render::World, re::render::Model>> = mk();
     let b: re::math::point::Point3<re::render::World> = mk();
     let _r: re::math::point::Point3<re::render::Model> = a.apply_pt(&b);
 }
 
-pub fn p853() {
+pub fn p859() {
     let a: re::math::mat::Mat4x4<re::math::mat::RealToReal<3, re::render::World, re::render::Model>> = mk();
     let b: re::math::point::Point3<re::render::World> = mk();
     let _ = a.apply_pt(&b);
 }
 
-pub fn p865() {
+pub fn p871() {
     let a: re::math::mat::Mat4x4<re::math::mat::RealToReal<3, re::render::World, re::render::Model>> = mk();
     let b: re::math::vec::Vec3<re::render::World> = mk();
     let _r: re::math::vec::Vec3<re::render::Model> = a.apply(&b);
 }
 
-pub fn p868() {
+pub fn p874() {
     let a: re::math::mat::Mat4x4<re::math::mat::RealToReal<3, re::render::World, re::render::Model>> = mk();
     let b: re::math::vec::Vec3<re::render::World> = mk();
     let _ = a.apply(&b);
 }
 
-pub fn p870() {
+pub fn p876() {
     let a: re::math::mat::Mat4x4<re::math::mat::RealToReal<3, re::render::World, re::render::Model>> = mk();
     let _ = re::render::cam::Camera::new((8, 8)).mode(a.to());
 }
 
-pub fn p871() {
+pub fn p877() {
     let a: re::math::mat::Mat4x4<re::math::mat::RealToReal<3, re::render::World, re::render::Model>> = mk();
     let _ = a.determinant();
 }
 
-pub fn p872() {
+pub fn p878() {
     let a: re::math::mat::Mat4x4<re::math::mat::RealToReal<3, re::render::World, re::render::Model>> = mk();
     let _ = a.inverse();
 }
 
-pub fn p873() {
+pub fn p879() {
     let a: re::math::mat::Mat4x4<re::math::mat::RealToReal<3, re::render::World, re::render::Model>> = mk();
     let _ = a.transpose();
 }
 
-pub fn p879() {
+pub fn p885() {
     let a: re::math::mat::Mat4x4<re::math::mat::RealToReal<3, re::render::World, ()>> = mk();
     let b: re::math::mat::Mat4x4<re::math::mat::RealToReal<3, re::render::Model, re::render::World>> = mk();
     let _ = a.compose(&b);
 }
 
-pub fn p881() {
+pub fn p887() {
     let a: re::math::mat::Mat4x4<re::math::mat::RealToReal<3, re::render::World, ()>> = mk();
     let b: re::math::mat::Mat4x4<re::math::mat::RealToReal<3, (), re::render::Model>> = mk();
     let _ = a.then(&b);
 }
 
-pub fn p883() {
+pub fn p889() {
     let a: re::math::mat::Mat4x4<re::math::mat::RealToReal<3, re::render::World, ()>> = mk();
     let b: re::math::mat::Mat4x4<re::math::mat::RealToReal<3, (), ()>> = mk();
     let _ = a.then(&b);
 }
 
-pub fn p884() {
+pub fn p890() {
     let a: re::math::mat::Mat4x4<re::math::mat::RealToReal<3, re::render::World, ()>> = mk();
     let b: re::math::mat::Mat4x4<re::math::mat::RealToReal<3, (), re::render::World>> = mk();
     let _ = a.compose(&b);
 }
 
-pub fn p885() {
+pub fn p891() {
     let a: re::math::mat::Mat4x4<re::math::mat::RealToReal<3, re::render::World, ()>> = mk();
     let b: re::math::mat::Mat4x4<re::math::mat::RealToReal<3, (), re::render::World>> = mk();
     let _ = a.then(&b);
 }
 
-pub fn p891() {
+pub fn p897() {
     let a: re::math::mat::Mat4x4<re::math::mat::RealToReal<3, re::render::World, ()>> = mk();
     let b: re::math::mat::Mat4x4<re::math::mat::RealToReal<3, re::render::World, re::render::World>> = mk();
     let _ = a.compose(&b);
 }
 
-pub fn p895() {
+pub fn p901() {
     let a: re::math::mat::Mat4x4<re::math::mat::RealToReal<3, re::render::World, ()>> = mk();
     let b: re::math::mat::Mat4x4<re::math::mat::RealToProj<()>> = mk();
     let _ = a.then(&b);
 }
 
-pub fn p910() {
+pub fn p916() {
     let a: re::math::mat::Mat4x4<re::math::mat::RealToReal<3, re::render::World, ()>> = mk();
     let b: re::math::point::Point3<re::render::World> = mk();
     let _r: re::math::point::Point3<()> = a.apply_pt(&b);
 }
 
-pub fn p912() {
+pub fn p918() {
     let a: re::math::mat::Mat4x4<re::math::mat::RealToReal<3, re::render::World, ()>> = mk();
     let b: re::math::point::Point3<re::render::World> = mk();
     let _ = a.apply_pt(&b);
 }
 
-pub fn p925() {
+pub fn p931() {
     let a: re::math::mat::Mat4x4<re::math::mat::RealToReal<3, re::render::World, ()>> = mk();
     let b: re::math::vec::Vec3<re::render::World> = mk();
     let _r: re::math::vec::Vec3<()> = a.apply(&b);
 }
 
-pub fn p927() {
+pub fn p933() {
     let a: re::math::mat::Mat4x4<re::math::mat::RealToReal<3, re::render::World, ()>> = mk();
     let b: re::math::vec::Vec3<re::render::World> = mk();
     let _ = a.apply(&b);
 }
 
-pub fn p928() {
+pub fn p934() {
     let a: re::math::mat::Mat4x4<re::math::mat::RealToReal<3, re::render::World, ()>> = mk();
     let _ = a.determinant();
 }
 
-pub fn p929() {
+pub fn p935() {
     let a: re::math::mat::Mat4x4<re::math::mat::RealToReal<3, re::render::World, ()>> = mk();
     let _ = a.inverse();
 }
 
-pub fn p930() {
+pub fn p936() {
     let a: re::math::mat::Mat4x4<re::math::mat::RealToReal<3, re::render::World, ()>> = mk();
     let _ = a.transpose();
 }
 
-pub fn p932() {
+pub fn p938() {
     let a: re::math::mat::Mat4x4<re::math::mat::RealToReal<3, re::render::World, crate::UserTag>> = mk();
     let b: re::math::mat::Mat4x4<re::math::mat::RealToReal<3, crate::UserTag, crate::UserTag>> = mk();
     let _ = a.then(&b);
 }
 
-pub fn p933() {
+pub fn p939() {
     let a: re::math::mat::Mat4x4<re::math::mat::RealToReal<3, re::render::World, crate::UserTag>> = mk();
     let b: re::math::mat::Mat4x4<re::math::mat::RealToReal<3, crate::UserTag, re::render::World>> = mk();
     let _ = a.compose(&b);
 }
 
-pub fn p934() {
+pub fn p940() {
     let a: re::math::mat::Mat4x4<re::math::mat::RealToReal<3, re::render::World, crate::UserTag>> = mk();
     let b: re::math::mat::Mat4x4<re::math::mat::RealToReal<3, crate::UserTag, re::render::World>> = mk();
     let _ = a.then(&b);
 }
 
-pub fn p938() {
+pub fn p944() {
     let a: re::math::mat::Mat4x4<re::math::mat::RealToReal<3, re::render::World, crate::UserTag>> = mk();
     let b: re::math::point::Point3<re::render::World> = mk();
     let _ = a.apply_pt(&b);
 }
 
-pub fn p940() {
+pub fn p946() {
     let a: re::math::mat::Mat4x4<re::math::mat::RealToReal<3, re::render::World, crate::UserTag>> = mk();
     let b: re::math::vec::Vec3<re::render::World> = mk();
     let _ = a.apply(&b);
 }
 
-pub fn p941() {
+pub fn p947() {
     let a: re::math::mat::Mat4x4<re::math::mat::RealToReal<3, re::render::World, crate::UserTag>> = mk();
     let _ = a.determinant();
 }
 
-pub fn p942() {
+pub fn p948() {
     let a: re::math::mat::Mat4x4<re::math::mat::RealToReal<3, re::render::World, crate::UserTag>> = mk();
     let _ = a.inverse();
 }
 
-pub fn p943() {
+pub fn p949() {
     let a: re::math::mat::Mat4x4<re::math::mat::RealToReal<3, re::render::World, crate::UserTag>> = mk();
     let _ = a.transpose();
 }
 
-pub fn p947() {
+pub fn p953() {
     let a: re::math::mat::Mat4x4<re::math::mat::RealToReal<3, re::render::World, re::render::View>> = mk();
     let b: re::math::mat::Mat4x4<re::render::ViewToProj> = mk();
     let _ = a.then(&b);
 }
 
-pub fn p954() {
+pub fn p960() {
     let a: re::math::mat::Mat4x4<re::math::mat::RealToReal<3, re::render::World, re::render::View>> = mk();
     let b: re::math::point::Point3<re::render::World> = mk();
     let _ = a.apply_pt(&b);
 }
 
-pub fn p955() {
+pub fn p961() {
     let a: re::math::mat::Mat4x4<re::math::mat::RealToReal<3, re::render::World, re::render::View>> = mk();
     let _ = re::render::cam::Camera::new((8, 8)).mode(a);
 }
 
-pub fn p956() {
+pub fn p962() {
     let a: re::math::mat::Mat4x4<re::math::mat::RealToReal<3, re::render::World, re::render::View>> = mk();
     let _ = re::render::cam::Camera::new((8, 8)).mode(a.to());
 }
 
-pub fn p961() {
+pub fn p967() {
     let a: re::math::mat::Mat4x4<re::math::mat::RealToReal<3, re::render::World, re::render::World>> = mk();
     let b: re::math::mat::Mat4x4<re::render::WorldToView> = mk();
     let _ = a.then(&b);
 }
 
-pub fn p971() {
+pub fn p977() {
     let a: re::math::mat::Mat4x4<re::math::mat::RealToReal<3, re::render::World, re::render::World>> = mk();
     let b: re::math::mat::Mat4x4<re::math::mat::RealToReal<3, re::render::Model, re::render::World>> = mk();
     let _r: re::math::mat::Mat4x4<re::math::mat::RealToReal<3, re::render::Model, re::render::World>> = a.compose(&b);
 }
 
-pub fn p975() {
-    let a: re::math::mat::Mat4x4<re::math::mat::RealToReal<3, re::render::World, re::render::World>> = mk();
-    let b: re::math::mat::Mat4x4<re::math::mat::RealToReal<3, re::render::Model, re::render::World>> = mk();
-    let _ = a.compose(&b);
-}
-
 pub fn p981() {
     let a: re::math::mat::Mat4x4<re::math::mat::RealToReal<3, re::render::World, re::render::World>> = mk();
-    let b: re::math::mat::Mat4x4<re::math::mat::RealToReal<3, (), re::render::World>> = mk();
+    let b: re::math::mat::Mat4x4<re::math::mat::RealToReal<3, re::render::Model, re::render::World>> = mk();
     let _ = a.compose(&b);
 }
 
 pub fn p987() {
     let a: re::math::mat::Mat4x4<re::math::mat::RealToReal<3, re::render::World, re::render::World>> = mk();
+    let b: re::math::mat::Mat4x4<re::math::mat::RealToReal<3, (), re::render::World>> = mk();
+    let _ = a.compose(&b);
+}
+
+pub fn p993() {
+    let a: re::math::mat::Mat4x4<re::math::mat::RealToReal<3, re::render::World, re::render::World>> = mk();
     let b: re::math::mat::Mat4x4<re::math::mat::RealToReal<3, re::render::World, re::render::Model>> = mk();
     let _ = a.then(&b);
 }
 
-pub fn p989() {
+pub fn p995() {
     let a: re::math::mat::Mat4x4<re::math::mat::RealToReal<3, re::render::World, re::render::World>> = mk();
     let b: re::math::mat::Mat4x4<re::math::mat::RealToReal<3, re::render::World, ()>> = mk();
     let _ = a.then(&b);
 }
 
-pub fn p993() {
+pub fn p999() {
     let a: re::math::mat::Mat4x4<re::math::mat::RealToReal<3, re::render::World, re::render::World>> = mk();
     let b: re::math::mat::Mat4x4<re::math::mat::RealToReal<3, re::render::World, re::render::World>> = mk();
     let _r: re::math::mat::Mat4x4<re::math::mat::RealToReal<3, re::render::World, re::render::World>> = a.compose(&b);
 }
 
-pub fn p994() {
+pub fn p1000() {
     let a: re::math::mat::Mat4x4<re::math::mat::RealToReal<3, re::render::World, re::render::World>> = mk();
     let b: re::math::mat::Mat4x4<re::math::mat::RealToReal<3, re::render::World, re::render::World>> = mk();
     let _ = a.compose(&b);
 }
 
-pub fn p995() {
+pub fn p1001() {
     let a: re::math::mat::Mat4x4<re::math::mat::RealToReal<3, re::render::World, re::render::World>> = mk();
     let b: re::math::mat::Mat4x4<re::math::mat::RealToReal<3, re::render::World, re::render::World>> = mk();
     let _ = a.then(&b);
 }
 
-pub fn p1001() {
+pub fn p1007() {
     let a: re::math::mat::Mat4x4<re::math::mat::RealToReal<3, re::render::World, re::render::World>> = mk();
     let b: re::math::mat::Mat4x4<re::math::mat::RealToProj<re::render::World>> = mk();
     let _ = a.then(&b);
 }
 
-pub fn p1018() {
+pub fn p1024() {
     let a: re::math::mat::Mat4x4<re::math::mat::RealToReal<3, re::render::World, re::render::World>> = mk();
     let b: re::math::point::Point3<re::render::World> = mk();
     let _r: re::math::point::Point3<re::render::World> = a.apply_pt(&b);
 }
 
-pub fn p1020() {
+pub fn p1026() {
     let a: re::math::mat::Mat4x4<re::math::mat::RealToReal<3, re::render::World, re::render::World>> = mk();
     let b: re::math::point::Point3<re::render::World> = mk();
     let _ = a.apply_pt(&b);
 }
 
-pub fn p1034() {
+pub fn p1040() {
     let a: re::math::mat::Mat4x4<re::math::mat::RealToReal<3, re::render::World, re::render::World>> = mk();
     let b: re::math::vec::Vec3<re::render::World> = mk();
     let _r: re::math::vec::Vec3<re::render::World> = a.apply(&b);
 }
 
-pub fn p1035() {
+pub fn p1041() {
     let a: re::math::mat::Mat4x4<re::math::mat::RealToReal<3, re::render::World, re::render::World>> = mk();
     let b: re::math::vec::Vec3<re::render::World> = mk();
     let _ = a.apply(&b);
 }
 
-pub fn p1037() {
+pub fn p1043() {
     let a: re::math::mat::Mat4x4<re::math::mat::RealToReal<3, re::render::World, re::render::World>> = mk();
     let _ = re::render::cam::Camera::new((8, 8)).mode(a.to());
 }
 
-pub fn p1038() {
+pub fn p1044() {
     let a: re::math::mat::Mat4x4<re::math::mat::RealToReal<3, re::render::World, re::render::World>> = mk();
     let _ = a.determinant();
 }
 
-pub fn p1039() {
+pub fn p1045() {
     let a: re::math::mat::Mat4x4<re::math::mat::RealToReal<3, re::render::World, re::render::World>> = mk();
     let _ = a.inverse();
 }
 
-pub fn p1040() {
+pub fn p1046() {
     let a: re::math::mat::Mat4x4<re::math::mat::RealToReal<3, re::render::World, re::render::World>> = mk();
     let _ = a.transpose();
 }
 
-pub fn p1047() {
+pub fn p1053() {
     let a: re::math::mat::Mat4x4<re::math::mat::RealToProj<re::render::Model>> = mk();
     let b: re::math::mat::Mat4x4<re::math::mat::RealToReal<3, re::render::Model, re::render::Model>> = mk();
     let _ = a.compose(&b);
 }
 
-pub fn p1053() {
+pub fn p1059() {
     let a: re::math::mat::Mat4x4<re::math::mat::RealToProj<re::render::Model>> = mk();
     let b: re::math::mat::Mat4x4<re::math::mat::RealToReal<3, (), re::render::Model>> = mk();
     let _ = a.compose(&b);
 }
 
-pub fn p1059() {
+pub fn p1065() {
     let a: re::math::mat::Mat4x4<re::math::mat::RealToProj<re::render::Model>> = mk();
     let b: re::math::mat::Mat4x4<re::math::mat::RealToReal<3, re::render::World, re::render::Model>> = mk();
     let _ = a.compose(&b);
 }
 
-pub fn p1064() {
+pub fn p1070() {
     let a: re::math::mat::Mat4x4<re::math::mat::RealToProj<re::render::Model>> = mk();
     let b: re::math::point::Point3<re::render::Model> = mk();
     let _ = a.apply(&b);
 }
 
-pub fn p1076() {
+pub fn p1082() {
     let a: re::math::mat::Mat4x4<re::math::mat::RealToProj<re::render::Model>> = mk();
     let _ = re::render::cam::Camera::new((8, 8)).mode(a.to());
 }
 
-pub fn p1083() {
+pub fn p1089() {
     let a: re::math::mat::Mat4x4<re::math::mat::RealToProj<()>> = mk();
     let b: re::math::mat::Mat4x4<re::math::mat::RealToReal<3, re::render::Model, ()>> = mk();
     let _ = a.compose(&b);
 }
 
-pub fn p1089() {
+pub fn p1095() {
     let a: re::math::mat::Mat4x4<re::math::mat::RealToProj<()>> = mk();
     let b: re::math::mat::Mat4x4<re::math::mat::RealToReal<3, (), ()>> = mk();
     let _ = a.compose(&b);
 }
 
-pub fn p1095() {
+pub fn p1101() {
     let a: re::math::mat::Mat4x4<re::math::mat::RealToProj<()>> = mk();
     let b: re::math::mat::Mat4x4<re::math::mat::RealToReal<3, re::render::World, ()>> = mk();
     let _ = a.compose(&b);
 }
 
-pub fn p1100() {
+pub fn p1106() {
     let a: re::math::mat::Mat4x4<re::math::mat::RealToProj<()>> = mk();
     let b: re::math::point::Point3<()> = mk();
     let _ = a.apply(&b);
 }
 
-pub fn p1117() {
+pub fn p1123() {
     let a: re::math::mat::Mat4x4<re::math::mat::RealToProj<re::render::View>> = mk();
     let b: re::math::point::Point3<re::render::View> = mk();
     let _ = a.apply(&b);
 }
 
-pub fn p1122() {
+pub fn p1128() {
     let a: re::math::mat::Mat4x4<re::math::mat::RealToProj<re::render::View>> = mk();
     let _ = re::render::cam::Camera::new((8, 8)).mode(a.to());
 }
 
-pub fn p1133() {
+pub fn p1139() {
     let a: re::math::mat::Mat4x4<re::math::mat::RealToProj<re::render::World>> = mk();
     let b: re::math::mat::Mat4x4<re::math::mat::RealToReal<3, re::render::Model, re::render::World>> = mk();
     let _ = a.compose(&b);
 }
 
-pub fn p1139() {
+pub fn p1145() {
     let a: re::math::mat::Mat4x4<re::math::mat::RealToProj<re::render::World>> = mk();
     let b: re::math::mat::Mat4x4<re::math::mat::RealToReal<3, (), re::render::World>> = mk();
     let _ = a.compose(&b);
 }
 
-pub fn p1145() {
+pub fn p1151() {
     let a: re::math::mat::Mat4x4<re::math::mat::RealToProj<re::render::World>> = mk();
     let b: re::math::mat::Mat4x4<re::math::mat::RealToReal<3, re::render::World, re::render::World>> = mk();
     let _ = a.compose(&b);
 }
 
-pub fn p1152() {
+pub fn p1158() {
     let a: re::math::mat::Mat4x4<re::math::mat::RealToProj<re::render::World>> = mk();
     let b: re::math::point::Point3<re::render::World> = mk();
     let _ = a.apply(&b);
 }
 
-pub fn p1158() {
+pub fn p1164() {
     let a: re::math::mat::Mat4x4<re::math::mat::RealToProj<re::render::World>> = mk();
     let _ = re::render::cam::Camera::new((8, 8)).mode(a.to());
 }
 
-pub fn p1168() {
+pub fn p1174() {
     use re::geom::{Tri, Vertex};
     let vs = |_: Vertex<re::math::point::Point3<re::render::Model>, ()>, _: ()| -> Vertex<re::math::vec::ProjVec4, f32> { mk() };
     let fs = |_: re::render::raster::Frag<f32>| -> Option<re::math::color::Color4> { mk() };
@@ -1567,73 +1578,73 @@ pub fn p1168() {
     re::render::render(&tris, &verts, &sh, (), mk(), &mut target, &mk::<re::render::Context>());
 }
 
-pub fn p1173() {
+pub fn p1179() {
     let a: re::math::point::Point2<re::render::Model> = mk();
     let b: re::math::point::Point2<re::render::Model> = mk();
     let _ = re::math::Lerp::lerp(&a, &b, 0.5);
 }
 
-pub fn p1174() {
+pub fn p1180() {
     let a: re::math::point::Point2<re::render::Model> = mk();
     let b: re::math::point::Point2<re::render::Model> = mk();
     let _ = a - b;
 }
 
-pub fn p1193() {
+pub fn p1199() {
     let a: re::math::point::Point2<re::render::Model> = mk();
     let b: re::math::vec::Vec2<re::render::Model> = mk();
     let _ = a + b;
 }
 
-pub fn p1201() {
+pub fn p1207() {
     let a: re::math::point::Point2<()> = mk();
     let b: re::math::angle::PolarVec = mk();
     let _ = a + b.to_cart();
 }
 
-pub fn p1202() {
+pub fn p1208() {
     let a: re::math::point::Point2<()> = mk();
     let b: re::math::angle::PolarVec = mk();
     let _ = a + b.into();
 }
 
-pub fn p1207() {
+pub fn p1213() {
     let a: re::math::point::Point2<()> = mk();
     let b: re::math::point::Point2<()> = mk();
     let _ = re::math::Lerp::lerp(&a, &b, 0.5);
 }
 
-pub fn p1208() {
+pub fn p1214() {
     let a: re::math::point::Point2<()> = mk();
     let b: re::math::point::Point2<()> = mk();
     let _ = a - b;
 }
 
-pub fn p1225() {
+pub fn p1231() {
     let a: re::math::point::Point2<()> = mk();
     let b: re::math::vec::Vec2<()> = mk();
     let _ = a + b;
 }
 
-pub fn p1238() {
+pub fn p1244() {
     let a: re::math::point::Point2<re::render::World> = mk();
     let b: re::math::point::Point2<re::render::World> = mk();
     let _ = re::math::Lerp::lerp(&a, &b, 0.5);
 }
 
-pub fn p1239() {
+pub fn p1245() {
     let a: re::math::point::Point2<re::render::World> = mk();
     let b: re::math::point::Point2<re::render::World> = mk();
     let _ = a - b;
 }
 
-pub fn p1251() {
+pub fn p1257() {
     let a: re::math::point::Point2<re::render::World> = mk();
     let b: re::math::vec::Vec2<re::render::World> = mk();
     let _ = a + b;
 }
 
-pub fn p1269() {
+pub fn p1275() {
     let a: re::math::point::Point3<re::render::Model> = mk();
     let b: re::math::point::Point3<re::render::Model> = mk();
     let c: re::math::point::Point3<re::render::Model> = mk();
@@ -1641,31 +1652,31 @@ pub fn p1269() {
     let _ = re::math::space::Affine::add(&c, &d);
 }
 
-pub fn p1274() {
+pub fn p1280() {
     let a: re::math::point::Point3<re::render::Model> = mk();
     let b: re::math::point::Point3<re::render::Model> = mk();
     let _r: re::math::vec::Vec3<re::render::Model> = a - b;
 }
 
-pub fn p1278() {
+pub fn p1284() {
     let a: re::math::point::Point3<re::render::Model> = mk();
     let b: re::math::point::Point3<re::render::Model> = mk();
     let _ = re::math::Lerp::lerp(&a, &b, 0.5);
 }
 
-pub fn p1279() {
+pub fn p1285() {
     let a: re::math::point::Point3<re::render::Model> = mk();
     let b: re::math::point::Point3<re::render::Model> = mk();
     let _ = a - b;
 }
 
-pub fn p1310() {
+pub fn p1316() {
     let a: re::math::point::Point3<re::render::Model> = mk();
     let b: re::math::vec::Vec3<re::render::Model> = mk();
     let _ = a + b;
 }
 
-pub fn p1342() {
+pub fn p1348() {
     let a: re::math::point::Point3<()> = mk();
     let b: re::math::point::Point3<()> = mk();
     let c: re::math::point::Point3<()> = mk();
@@ -1673,43 +1684,43 @@ pub fn p1342() {
     let _ = re::math::space::Affine::add(&c, &d);
 }
 
-pub fn p1346() {
+pub fn p1352() {
     let a: re::math::point::Point3<()> = mk();
     let b: re::math::point::Point3<()> = mk();
     let _r: re::math::vec::Vec3<()> = a - b;
 }
 
-pub fn p1349() {
+pub fn p1355() {
     let a: re::math::point::Point3<()> = mk();
     let b: re::math::point::Point3<()> = mk();
     let _ = re::math::Lerp::lerp(&a, &b, 0.5);
 }
 
-pub fn p1350() {
+pub fn p1356() {
     let a: re::math::point::Point3<()> = mk();
     let b: re::math::point::Point3<()> = mk();
     let _ = a - b;
 }
 
-pub fn p1364() {
+pub fn p1370() {
     let a: re::math::point::Point3<()> = mk();
     let b: re::math::angle::SphericalVec = mk();
     let _ = a + b.to_cart();
 }
 
-pub fn p1365() {
+pub fn p1371() {
     let a: re::math::point::Point3<()> = mk();
     let b: re::math::angle::SphericalVec = mk();
     let _ = a + b.into();
 }
 
-pub fn p1370() {
+pub fn p1376() {
     let a: re::math::point::Point3<()> = mk();
     let b: re::math::vec::Vec3<()> = mk();
     let _ = a + b;
 }
 
-pub fn p1411() {
+pub fn p1417() {
     let a: re::math::point::Point3<re::render::World> = mk();
     let b: re::math::point::Point3<re::render::World> = mk();
     let c: re::math::point::Point3<re::render::World> = mk();
@@ -1717,248 +1728,248 @@ pub fn p1411() {
     let _ = re::math::space::Affine::add(&c, &d);
 }
 
-pub fn p1414() {
+pub fn p1420() {
     let a: re::math::point::Point3<re::render::World> = mk();
     let b: re::math::point::Point3<re::render::World> = mk();
     let _r: re::math::vec::Vec3<re::render::World> = a - b;
 }
 
-pub fn p1416() {
+pub fn p1422() {
     let a: re::math::point::Point3<re::render::World> = mk();
     let b: re::math::point::Point3<re::render::World> = mk();
     let _ = re::math::Lerp::lerp(&a, &b, 0.5);
-}
-
-pub fn p1417() {
-    let a: re::math::point::Point3<re::render::World> = mk();
-    let b: re::math::point::Point3<re::render::World> = mk();
-    let _ = a - b;
 }
 
 pub fn p1423() {
     let a: re::math::point::Point3<re::render::World> = mk();
+    let b: re::math::point::Point3<re::render::World> = mk();
+    let _ = a - b;
+}
+
+pub fn p1429() {
+    let a: re::math::point::Point3<re::render::World> = mk();
     let b: re::math::vec::Vec3<re::render::World> = mk();
     let _ = a + b;
 }
 
-pub fn p1437() {
+pub fn p1443() {
     let a: re::math::vec::Vec2<re::render::Model> = mk();
     let b: re::math::vec::Vec2<re::render::Model> = mk();
     let _ = a + b;
 }
 
-pub fn p1438() {
+pub fn p1444() {
     let a: re::math::vec::Vec2<re::render::Model> = mk();
     let b: re::math::vec::Vec2<re::render::Model> = mk();
     let _ = a.dot(&b);
 }
 
-pub fn p1439() {
+pub fn p1445() {
     let a: re::math::vec::Vec2<re::render::Model> = mk();
     let b: re::math::vec::Vec2<re::render::Model> = mk();
     let _ = re::math::Lerp::lerp(&a, &b, 0.5);
 }
 
-pub fn p1440() {
+pub fn p1446() {
     let a: re::math::vec::Vec2<re::render::Model> = mk();
     let b: re::math::vec::Vec2<re::render::Model> = mk();
     let _ = a - b;
 }
 
-pub fn p1461() {
+pub fn p1467() {
     let a: re::math::vec::Vec2<re::render::Model> = mk();
     let _ = [a.clone(), a].into_iter().sum::<re::math::vec::Vec2<re::render::Model>>();
 }
 
-pub fn p1463() {
+pub fn p1469() {
     let a: re::math::vec::Vec2<()> = mk();
     let b: re::math::angle::PolarVec = mk();
     let _ = a + b.to_cart();
 }
 
-pub fn p1464() {
+pub fn p1470() {
     let a: re::math::vec::Vec2<()> = mk();
     let b: re::math::angle::PolarVec = mk();
     let _ = a + b.into();
 }
 
-pub fn p1478() {
+pub fn p1484() {
     let a: re::math::vec::Vec2<()> = mk();
     let b: re::math::vec::Vec2<()> = mk();
     let _ = a + b;
 }
 
-pub fn p1479() {
+pub fn p1485() {
     let a: re::math::vec::Vec2<()> = mk();
     let b: re::math::vec::Vec2<()> = mk();
     let _ = a.dot(&b);
 }
 
-pub fn p1480() {
+pub fn p1486() {
     let a: re::math::vec::Vec2<()> = mk();
     let b: re::math::vec::Vec2<()> = mk();
     let _ = re::math::Lerp::lerp(&a, &b, 0.5);
 }
 
-pub fn p1481() {
+pub fn p1487() {
     let a: re::math::vec::Vec2<()> = mk();
     let b: re::math::vec::Vec2<()> = mk();
     let _ = a - b;
 }
 
-pub fn p1498() {
+pub fn p1504() {
     let a: re::math::vec::Vec2<()> = mk();
     let _ = [a.clone(), a].into_iter().sum::<re::math::vec::Vec2<()>>();
 }
 
-pub fn p1513() {
+pub fn p1519() {
     let a: re::math::vec::Vec2<re::render::World> = mk();
     let b: re::math::vec::Vec2<re::render::World> = mk();
     let _ = a + b;
 }
 
-pub fn p1514() {
+pub fn p1520() {
     let a: re::math::vec::Vec2<re::render::World> = mk();
     let b: re::math::vec::Vec2<re::render::World> = mk();
     let _ = a.dot(&b);
 }
 
-pub fn p1515() {
+pub fn p1521() {
     let a: re::math::vec::Vec2<re::render::World> = mk();
     let b: re::math::vec::Vec2<re::render::World> = mk();
     let _ = re::math::Lerp::lerp(&a, &b, 0.5);
 }
 
-pub fn p1516() {
+pub fn p1522() {
     let a: re::math::vec::Vec2<re::render::World> = mk();
     let b: re::math::vec::Vec2<re::render::World> = mk();
     let _ = a - b;
 }
 
-pub fn p1529() {
+pub fn p1535() {
     let a: re::math::vec::Vec2<re::render::World> = mk();
     let _ = [a.clone(), a].into_iter().sum::<re::math::vec::Vec2<re::render::World>>();
 }
 
-pub fn p1554() {
+pub fn p1560() {
     let a: re::math::vec::Vec3<re::render::Model> = mk();
     let b: re::math::vec::Vec3<re::render::Model> = mk();
     let _ = a + b;
 }
 
-pub fn p1555() {
+pub fn p1561() {
     let a: re::math::vec::Vec3<re::render::Model> = mk();
     let b: re::math::vec::Vec3<re::render::Model> = mk();
     let _ = a.dot(&b);
 }
 
-pub fn p1556() {
+pub fn p1562() {
     let a: re::math::vec::Vec3<re::render::Model> = mk();
     let b: re::math::vec::Vec3<re::render::Model> = mk();
     let _ = re::math::Lerp::lerp(&a, &b, 0.5);
 }
 
-pub fn p1557() {
+pub fn p1563() {
     let a: re::math::vec::Vec3<re::render::Model> = mk();
     let b: re::math::vec::Vec3<re::render::Model> = mk();
     let _ = a - b;
 }
 
-pub fn p1566() {
+pub fn p1572() {
     let a: re::math::vec::Vec3<re::render::Model> = mk();
     let _ = [a.clone(), a].into_iter().sum::<re::math::vec::Vec3<re::render::Model>>();
 }
 
-pub fn p1578() {
+pub fn p1584() {
     let a: re::math::vec::Vec3<()> = mk();
     let b: re::math::angle::SphericalVec = mk();
     let _ = a + b.to_cart();
 }
 
-pub fn p1579() {
+pub fn p1585() {
     let a: re::math::vec::Vec3<()> = mk();
     let b: re::math::angle::SphericalVec = mk();
     let _ = a + b.into();
 }
 
-pub fn p1596() {
+pub fn p1602() {
     let a: re::math::vec::Vec3<()> = mk();
     let b: re::math::vec::Vec3<()> = mk();
     let _ = a + b;
 }
 
-pub fn p1597() {
+pub fn p1603() {
     let a: re::math::vec::Vec3<()> = mk();
     let b: re::math::vec::Vec3<()> = mk();
     let _ = a.dot(&b);
-}
-
-pub fn p1598() {
-    let a: re::math::vec::Vec3<()> = mk();
-    let b: re::math::vec::Vec3<()> = mk();
-    let _ = re::math::Lerp::lerp(&a, &b, 0.5);
-}
-
-pub fn p1599() {
-    let a: re::math::vec::Vec3<()> = mk();
-    let b: re::math::vec::Vec3<()> = mk();
-    let _ = a - b;
 }
 
 pub fn p1604() {
     let a: re::math::vec::Vec3<()> = mk();
-    let _ = [a.clone(), a].into_iter().sum::<re::math::vec::Vec3<()>>();
+    let b: re::math::vec::Vec3<()> = mk();
+    let _ = re::math::Lerp::lerp(&a, &b, 0.5);
 }
 
 pub fn p1605() {
+    let a: re::math::vec::Vec3<()> = mk();
+    let b: re::math::vec::Vec3<()> = mk();
+    let _ = a - b;
+}
+
+pub fn p1610() {
+    let a: re::math::vec::Vec3<()> = mk();
+    let _ = [a.clone(), a].into_iter().sum::<re::math::vec::Vec3<()>>();
+}
+
+pub fn p1611() {
     let a: re::math::vec::Vec3<crate::UserTag> = mk();
     let b: re::math::vec::Vec3<crate::UserTag> = mk();
     let _ = a + b;
 }
 
-pub fn p1606() {
+pub fn p1612() {
     let a: re::math::vec::Vec3<crate::UserTag> = mk();
     let b: re::math::vec::Vec3<crate::UserTag> = mk();
     let _ = a.dot(&b);
 }
 
-pub fn p1607() {
+pub fn p1613() {
     let a: re::math::vec::Vec3<crate::UserTag> = mk();
     let b: re::math::vec::Vec3<crate::UserTag> = mk();
     let _ = re::math::Lerp::lerp(&a, &b, 0.5);
 }
 
-pub fn p1608() {
+pub fn p1614() {
     let a: re::math::vec::Vec3<crate::UserTag> = mk();
     let b: re::math::vec::Vec3<crate::UserTag> = mk();
     let _ = a - b;
 }
 
-pub fn p1643() {
+pub fn p1649() {
     let a: re::math::vec::Vec3<re::render::World> = mk();
     let b: re::math::vec::Vec3<re::render::World> = mk();
     let _ = a + b;
 }
 
-pub fn p1644() {
+pub fn p1650() {
     let a: re::math::vec::Vec3<re::render::World> = mk();
     let b: re::math::vec::Vec3<re::render::World> = mk();
     let _ = a.dot(&b);
 }
 
-pub fn p1645() {
+pub fn p1651() {
     let a: re::math::vec::Vec3<re::render::World> = mk();
     let b: re::math::vec::Vec3<re::render::World> = mk();
     let _ = re::math::Lerp::lerp(&a, &b, 0.5);
 }
 
-pub fn p1646() {
+pub fn p1652() {
     let a: re::math::vec::Vec3<re::render::World> = mk();
     let b: re::math::vec::Vec3<re::render::World> = mk();
     let _ = a - b;
 }
 
-pub fn p1647() {
+pub fn p1653() {
     let a: re::math::vec::Vec3<re::render::World> = mk();
     let _ = [a.clone(), a].into_iter().sum::<re::math::vec::Vec3<re::render::World>>();
 }
